@@ -448,12 +448,22 @@ class G:
         if pf.get('feedback') and self.chance(0.15):
             # feedback template: src -> unique -> map(x -> (x+1, x+2) while x < K) -> flatten -> back into src
             src = 0
-            K = TOKEN_BASE + self.pick([3, 5, 8])
-            u = self.add({'op': 'unique', 'up': [src]}, INT)
-            fn = ['grow', K] if self.chance(0.5) else ['growback', K, TOKEN_BASE]
-            g = self.add({'op': 'map', 'up': [u], 'fn': fn}, ('var', 0, INT))
-            fl = self.add({'op': 'flatten', 'up': [g]}, INT)
-            feedback.append({'from': fl, 'to': src})
+            if self.chance(0.3):
+                # a stateful node inside the cycle: src -> accumulate(bounded total) -> unique -> back into src;
+                # every emission of the accumulator re-enters it before its own _emit has returned
+                node = {'op': 'accumulate', 'up': [src], 'fn': ['addcap', self.pick([3, 5, 8])]}
+                if self.chance(0.5):
+                    node['start'] = TOKEN_BASE + r.randrange(3)
+                a = self.add(node, INT)
+                u = self.add({'op': 'unique', 'up': [a]}, INT)
+                feedback.append({'from': u, 'to': src})
+            else:
+                K = TOKEN_BASE + self.pick([3, 5, 8])
+                u = self.add({'op': 'unique', 'up': [src]}, INT)
+                fn = ['grow', K] if self.chance(0.5) else ['growback', K, TOKEN_BASE]
+                g = self.add({'op': 'map', 'up': [u], 'fn': fn}, ('var', 0, INT))
+                fl = self.add({'op': 'flatten', 'up': [g]}, INT)
+                feedback.append({'from': fl, 'to': src})
         target = r.randrange(1, 11 if big else 8)
         tries = 0
         placed_must = must is None
@@ -583,6 +593,8 @@ class G:
               'faults': {'stalls': stalls, 'fail': fails}}
         if feedback:
             sc['feedback'] = feedback
+        elif self.chance(0.2):
+            sc['start_leaves'] = True
         return sc
 
 
